@@ -785,37 +785,34 @@ impl<'a> Oracle<'a> {
         }
     }
 
-    /// Clause 4: in a fault-free run an unchanged file is read at most once
-    /// per cache (plus once per reset).
+    /// Clause 4: an unchanged file is *reused*. In a fault-free run (the
+    /// disk never changes) every lookup of a name through one cache hands out
+    /// the same zone object, except that each `reset()` may bring a new one.
+    /// Judged by what the caller can observe -- the identity of the zone the
+    /// returned handle points to -- not by which file system calls jiff makes
+    /// (re-opening or re-stat-ing an unchanged file is fine; building a new
+    /// zone from it is not).
     fn check_reuse(&mut self) -> Vec<Violation> {
         let mut out = vec![];
         let case = self.case();
-        if !case.fault_free || case.backend == Backend::Bundled {
+        if !case.fault_free || case.backend == Backend::Bundled || !self.run.track_blocks {
             return out;
         }
-        let site = match case.backend {
-            Backend::ZoneInfo => "zi.new.read",
-            _ => "cc.new.stat",
-        };
         let snap0 = &self.run.disk.snaps[0];
-        let mut loads: HashMap<(u32, usize), u32> = HashMap::new();
-        for e in self.events {
-            if let What::Site(s) = e.what {
-                if s == site && e.op != u32::MAX {
-                    let o = &self.run.ops[e.op as usize];
-                    if let OpKind::Get { name: Some(n), .. } = o.kind {
-                        *loads.entry((o.cache, n)).or_default() += 1;
-                    }
+        let mut objects: HashMap<(u32, usize), Vec<(usize, u64)>> = HashMap::new();
+        for o in self.run.ops.iter() {
+            if let (OpKind::Get { name: Some(n), .. }, Some(block)) = (&o.kind, o.zone_block) {
+                let v = objects.entry((o.cache, *n)).or_default();
+                if !v.contains(&block) {
+                    v.push(block);
                 }
             }
         }
-        for (&(cache, n), &count) in loads.iter() {
+        for (&(cache, n), blocks) in objects.iter() {
             // Only files whose mtime jiff can represent are revalidated.
             let View::Bytes { mtime: Some(_), .. } = snap0.views[n] else {
                 continue;
             };
-            // Failures are not cached: an invalid file is legitimately read
-            // again by every lookup.
             let v0 = snap0.views[n].clone();
             if !matches!(self.expected_view(&v0, n), Exp::Zone(_)) {
                 continue;
@@ -825,15 +822,16 @@ impl<'a> Oracle<'a> {
                 .ops
                 .iter()
                 .filter(|o| o.cache == cache && matches!(o.kind, OpKind::Reset))
-                .count() as u32;
+                .count();
             self.stats.reuse_checked += 1;
-            if count > 1 + resets {
+            if blocks.len() > 1 + resets {
                 out.push(Violation {
                     clause: "reuse",
                     op: None,
                     detail: format!(
-                        "unchanged file {:?} was read {count} times through one cache with {resets} reset(s)",
-                        case.universe[n]
+                        "unchanged file {:?}: lookups through one cache handed out {} different zone objects with {resets} reset(s)",
+                        case.universe[n],
+                        blocks.len()
                     ),
                 });
             }
